@@ -79,6 +79,9 @@ mod imp {
         /// and whether they wake themselves (true) or wait for the harness (false)
         pend: Vec<(u32, bool)>,
         pulled: usize,
+        /// what the source says about itself: `size_hint` = (min(lo, remaining), up.map(|e| remaining + e)).
+        /// Always a *valid* hint (lower bound <= remaining <= upper bound).
+        hint: (usize, Option<usize>),
         src_waker: Option<Waker>,
         src_blocked: bool,
         src_pending_this_round: bool,
@@ -105,6 +108,7 @@ mod imp {
                 w,
                 pend: vec![(0, true); n + 1],
                 pulled: 0,
+                hint: (0, None),
                 src_waker: None,
                 src_blocked: false,
                 src_pending_this_round: false,
@@ -250,6 +254,12 @@ mod imp {
             }
             r
         }
+
+        fn size_hint(&self) -> (usize, Option<usize>) {
+            let g = self.w.lock().unwrap();
+            let rem = g.n() - g.pulled;
+            (g.hint.0.min(rem), g.hint.1.map(|e| rem + e))
+        }
     }
 
     struct SourceIter {
@@ -261,6 +271,12 @@ mod imp {
         fn next(&mut self) -> Option<GateFut> {
             let mut g = self.w.lock().unwrap();
             pull(&mut g, &self.w)
+        }
+
+        fn size_hint(&self) -> (usize, Option<usize>) {
+            let g = self.w.lock().unwrap();
+            let rem = g.n() - g.pulled;
+            (g.hint.0.min(rem), g.hint.1.map(|e| rem + e))
         }
     }
 
@@ -569,6 +585,8 @@ mod imp {
         plan_batch: Vec<usize>,
         release: Release,
         spurious: u64,
+        /// the source's size hint: (cap of the lower bound, slack of the upper bound or None)
+        hint: (usize, Option<usize>),
     }
 
     impl Scenario {
@@ -580,6 +598,7 @@ mod imp {
                 "waits_for": self.deps.iter().enumerate().filter_map(|(i, d)| d.map(|d| json!([i, d]))).collect::<Vec<_>>(),
                 "source_pending": self.pend.iter().map(|(c, s)| if *c == 0 { json!(0) } else { json!(format!("{c}{}", if *s { "self" } else { "held" })) }).collect::<Vec<_>>(),
                 "gates_per_step": self.plan_batch, "release": format!("{:?}", self.release), "spurious_polls": self.spurious,
+                "source_size_hint": format!("(min({}, remaining), {})", self.hint.0, self.hint.1.map_or("None".to_string(), |e| format!("remaining+{e}"))),
             })
         }
     }
@@ -606,6 +625,7 @@ mod imp {
             world.tasks[i].dep = sc.deps[i];
         }
         world.pend = sc.pend.clone();
+        world.hint = sc.hint;
         let shared: Shared = Arc::new(Mutex::new(world));
         let active = NonZeroUsize::new(sc.w).unwrap();
         let plan = Plan {
@@ -863,7 +883,7 @@ mod imp {
                 }
             }
         }
-        let sc = Scenario { variant, n, w, perm, errs, never, deps: vec![None; n], pend, plan_batch: batch, release, spurious: 0 };
+        let sc = Scenario { variant, n, w, perm, errs, never, deps: vec![None; n], pend, plan_batch: batch, release, spurious: 0, hint: (0, None) };
         run_scenario(env, &sc, src)
     }
 
@@ -939,7 +959,15 @@ mod imp {
         };
         let batch = if gates == 2 { vec![n.max(1)] } else { vec![1] };
         let (pend, release) = source_pattern(n, sp);
-        let sc = Scenario { variant, n, w, perm, errs: vec![false; n], never: vec![false; n], deps, pend, plan_batch: batch, release, spurious: 0 };
+        // the source's (valid) size hint rotates with the scenario: unknown, a lower bound of 1,
+        // a lower bound just below the window, exact
+        let hint = match (n + w + d + gates as usize + sp as usize) % 4 {
+            0 => (0, None),
+            1 => (1, None),
+            2 => (w.saturating_sub(1), Some(3)),
+            _ => (usize::MAX, Some(0)),
+        };
+        let sc = Scenario { variant, n, w, perm, errs: vec![false; n], never: vec![false; n], deps, pend, plan_batch: batch, release, spurious: 0, hint };
         run_scenario(env, &sc, src)
     }
 
@@ -1031,7 +1059,14 @@ mod imp {
         let batch: Vec<usize> = (0..4).map(|_| src.urange(1, 3)).collect();
         let release = src.pick(&[Release::Eager, Release::Lazy, Release::Random, Release::Random]);
         let spurious = src.pick(&[0u64, 0, 2, 5]);
-        let sc = Scenario { variant, n, w, perm, errs, never, deps, pend, plan_batch: batch, release, spurious };
+        let hint = match src.below(6) {
+            0 | 1 => (0, None),
+            2 => (1, None),
+            3 => (src.urange(1, w.max(2) - 1), if src.bool() { None } else { Some(src.urange(0, 4)) }),
+            4 => (src.urange(1, 8), Some(src.urange(0, 4))),
+            _ => (usize::MAX, Some(0)),
+        };
+        let sc = Scenario { variant, n, w, perm, errs, never, deps, pend, plan_batch: batch, release, spurious, hint };
         run_scenario(env, &sc, src)
     }
 
@@ -1040,9 +1075,9 @@ mod imp {
             Sub::exhaustive("all_orders", orders_total(false), orders_total(true), all_orders,
                 "seq_join (stream), seq_join+try_collect, seq_try_join_all, SeqJoin::try_join, SeqJoin::parallel_join x n=0..6 (thorough: 0..7) x all n! completion orders x windows 1..8 x error position (none, 0..n-1) x source {ready, self-waking Pending before every item, held once until nothing else can progress, held before every item} x {one gate per poll, two gates per poll | tasks after the error never complete}; per-round window and polling oracles, order, exactly-once, first error; non-trivial = n>=2 and the join had to wait"),
             Sub::exhaustive("dep_scenarios", dep_total(), dep_total(), dep_scenarios,
-                "explicit dependency scenarios: every task i waits for task i-d (or i+d on alternating blocks) with d<w, n=1..12, windows 1..8, gates opened ascending / descending / all at once, 4 source patterns: the join must finish (exact deadlock detection)"),
+                "explicit dependency scenarios: every task i waits for task i-d (or i+d on alternating blocks) with d<w, n=1..12, windows 1..8, gates opened ascending / descending / all at once, 4 source patterns, the source's size hint rotating over {unknown, lower bound 1, lower bound w-1 with slack, exact}: the join must finish (exact deadlock detection)"),
             Sub::random("random_schedules", 400, if MT { 60_000 } else { 1_500_000 }, if MT { 600_000 } else { 30_000_000 }, random_schedules,
-                "n=0..40, windows 1..8, random completion orders (incl. identity and reverse), 1-3 gates per step, source Pending 0..3 times per item (self-waking or held by the harness, released eagerly / lazily / randomly), spurious polls, several error positions, never-completing tasks after the first error, tasks waiting for a task up to w-1 positions earlier or later (acyclic, transitively inside the window); non-trivial = n>=2 and the join had to wait").shrink_iters(if MT { 40 } else { 400 }),
+                "n=0..40, windows 1..8, random completion orders (incl. identity and reverse), 1-3 gates per step, source Pending 0..3 times per item (self-waking or held by the harness, released eagerly / lazily / randomly), spurious polls, several error positions, never-completing tasks after the first error, tasks waiting for a task up to w-1 positions earlier or later (acyclic, transitively inside the window), valid source size hints {unknown, (1, None), lower bound below the window, small bounds with slack, exact}; non-trivial = n>=2 and the join had to wait").shrink_iters(if MT { 40 } else { 400 }),
         ]
     }
 }
